@@ -5,7 +5,7 @@
    spec side : content record `bfile`, encoder `enc` via records, record-walking decoder `dec`,
                `view_of` = what a reader should present, association-list table lookup.
    impl side : `impl_open`  = bpch1.__init__ + access of every tracer variable: header walk until the first
-               tracer repeats (quirks included), time_type strides, itemcount from the file size, assertions;
+               tracer repeats, time_type strides, itemcount from the file size, assertions;
                field positions come from the TRANSLATED dtype literals (Gen/Bpch.v);
                `impl_write` = ncf2bpch with the translated pads; `impl_lookup` = the dict-based name/scale/unit lookup.
    Character strings (20/40/80 chars = 5/10/20 words) and float64 time stamps (2 words) are only moved.
@@ -205,7 +205,7 @@ Definition skipnZ (n : Z) (l : list word) : list word :=
         offset += 220 + header[-2]
         if first_header is None: first_header = header
         elif same (category, tracer) as first_header or offset == file_size:
-            if offset == file_size: <add entry>
+            if offset == file_size and not same (category, tracer) as first_header: <add entry>
             break
         <add entry>
    The model handles skips that are non-negative multiples of 4 (others: Err; never generated). *)
@@ -230,8 +230,9 @@ Fixpoint walk (fuel : nat) (T : tinfo) (D : dinfo) (rest : list word) (rem : Z)
     match first with
     | None => continue (Some (p_cat h, p_tid h))
     | Some (c0, t0) =>
-      if (zlist_eqb (p_cat h) c0 && (p_tid h =? t0)) || (rem' =? 0) then
-        if rem' =? 0 then match mk_entry T D h with Some e => Ok [e] | None => Err end
+      let same := zlist_eqb (p_cat h) c0 && (p_tid h =? t0) in
+      if same || (rem' =? 0) then
+        if (rem' =? 0) && negb same then match mk_entry T D h with Some e => Ok [e] | None => Err end
         else Ok []
       else continue first
     end
@@ -263,7 +264,6 @@ Definition var_of_hdr (T : tinfo) (D : dinfo) (h : phdr) : var :=
   {| v_cat := p_cat h; v_name := fst (fst l); v_tid := p_tid h; v_unit0 := p_unit h; v_resv := p_resv h;
      v_nx := p_nx h; v_ny := p_ny h; v_nz := p_nz h; v_start := p_start h;
      v_scale := snd (fst l); v_unit := snd l |}.
-Definition max_layers : Z := 48.   (* geos_hyai['GEOS-5-REDUCED'].size, the default vertgrid *)
 Definition hd_pblock (l : list pblock) : phdr :=
   match l with q :: _ => q_hdr q | [] => parse_hdr [] end.
 
@@ -291,8 +291,7 @@ Definition impl_open (T : tinfo) (D : dinfo) (ws : list word) (size : Z) : resul
       let pb0 := hd [] pbs in
       (* assert (tid[0] == tid).all(); assert (gn[0] == gn).all() *)
       if negb (forallb (same_ids pb0) pbs) then Err else
-      (* max(layerns) > Ap.size: the warning's format string raises TypeError *)
-      if existsb (fun q => max_layers <? p_nz (q_hdr q)) pb0 then Err else
+      (* max(layerns) > Ap.size only warns *)
       (* variable access: assert (data['f0'] == data['f2']).all() *)
       if negb (forallb (forallb (fun q => q_m0 q =? q_m2 q)) pbs) then Err else
       Ok {| r_ftype := firstn 10 (skipn (woff ght "f1") ws); r_title := firstn 20 (skipn (woff ght "f4") ws);
@@ -327,7 +326,7 @@ Definition entry_of (T : tinfo) (D : dinfo) (b : block) : entry :=
   {| e_cat := b_cat b; e_name := fst (fst (spec_lookup T D (b_cat b) (b_tid b) (b_unit b)));
      e_n := b_nz b * b_ny b * b_nx b |}.
 (* every time block repeats the tracers of the first one (same metadata), one model grid per file, one
-   time stamp per time block, no tracer twice in a time block, distinct variable names, <= 48 layers *)
+   time stamp per time block, no tracer twice in a time block, distinct variable names *)
 Definition wf (T : tinfo) (D : dinfo) (f : bfile) : bool :=
   wf_shape f
   && match f_times f with
@@ -341,12 +340,8 @@ Definition wf (T : tinfo) (D : dinfo) (f : bfile) : bool :=
          && forallb (fun tb => forallb (fun b => zlist_eqb (b_tau b) (b_tau (hd_block tb))) tb) (f_times f)
          && negb (existsb (id_eqb b0) rest0)
          && nodup_keys (map (entry_of T D) t0)
-         && forallb (fun b => b_nz b <=? max_layers) t0
        end
      end.
-(* the defect region: a single tracer and exactly two time blocks *)
-Definition one_by_two (f : bfile) : bool :=
-  match f_times f with [[_]; [_]] => true | _ => false end.
 
 (* ---- scaled reading: values are raw * SCALE; exact binary32 value of a word -------------------- *)
 Definition b32_val (w : word) : option Q :=
